@@ -208,6 +208,8 @@ def _hyp_shard(args):
         acc = Accumulator()
         strat = mod.strategy(tier)
 
+        keep = [] if getattr(mod, "KEEP_CASES", False) else None
+
         @hypothesis.seed(seed * 1000 + shard)
         @settings(max_examples=n, database=None, deadline=None, derandomize=False,
                   phases=[Phase.generate], suppress_health_check=list(HealthCheck),
@@ -217,8 +219,12 @@ def _hyp_shard(args):
             with silence():
                 res = mod.run_case(case)
             acc.add(case, res)
+            if keep is not None:
+                keep.append((case, res))
 
         prop_fn()
+        if keep is not None:
+            mod.finalize_shard(keep, acc)
         return ("ok", acc)
     except BaseException:
         return ("err", traceback.format_exc())
